@@ -1,4 +1,4 @@
-(** Property C14 — pinned statements (tools/pin.py); proofs in Runtime/TokenBuffer.v, Runtime/TokenStream.v (faithful models of TokenIter, TokenBuffer::add, TokenStream, handle_additional_tokens, LRParser::call_action/pop_n). *)
+(** Property C14 — pinned statements (tools/pin.py); proofs in Runtime/TokenBuffer.v, Runtime/TokenStream.v (faithful models of TokenIter, TokenBuffer::add, TokenStream (after the fix: commits), handle_additional_tokens, LRParser::call_action/pop_n; *_old = pinned commit). *)
 From Coq Require Import List NArith.
 From Parol Require Import Runtime.TokenBuffer Runtime.TokenStream.
 Import ListNotations.
@@ -27,7 +27,6 @@ Proof. exact tokens_check_cover. Qed.
 
 Theorem C14_buffer_contiguous :
   forall (skips : list (list N)) (len fm : N) (ms : list smatch) (k0 : nat) (ops : list op),
-  1 <= k0 ->
   matches_ok len ms = true ->
   exists (d0 : list token) (j : nat) (rest : list token),
   delivered (run skips (stream_new skips len fm ms k0) ops) = d0 ++ repeat eoi_filler j /\
@@ -61,7 +60,8 @@ Proof. exact ll_match_same_token. Qed.
 Theorem C14_buffer_contiguous_k0_refuted :
   exists (skips : list (list N)) (len fm : N) (ms : list smatch) (ops : list op),
   matches_ok len ms = true /\
-  last (run skips (stream_new skips len fm ms 0) ops) (EvSkip []) = EvLook (inr eoi_filler) /\
-  ~ chain 0 (delivered (run skips (stream_new skips len fm ms 0) ops)) len.
+  last (run skips (stream_new_old skips len fm ms 0) ops) (EvSkip []) =
+  EvLook (inr eoi_filler) /\
+  ~ chain 0 (delivered (run skips (stream_new_old skips len fm ms 0) ops)) len.
 Proof. exact buffer_contiguous_k0_refuted. Qed.
 
